@@ -18,7 +18,7 @@ HP(w) == (w \div RM) % 2
 EX(w) == w \div (2 * RM)
 ToSet(s) == {s[i] : i \in DOMAIN s}
 
-Persisted(x, c) == x.cell1[c] + x.cell2[c]
+Persisted(x, c) == x.cell1[c] + x.cell2[c] + x.cell3[c]
 
 (* at every instant persisted + pending never exceeds the increments begun *)
 UpperBoundAt(x) == \A c \in DOMAIN x.st : Persisted(x, c) + EX(x.st[c]) <= x.begun[c]
@@ -30,7 +30,7 @@ FlushedAt(x) == (x.final /\ x.fileopen) => \A c \in DOMAIN x.st : EX(x.st[c]) = 
 PtrFreshAt(x) == x.final => \A c \in DOMAIN x.st : (HP(x.st[c]) = 1 /\ x.ptr[c] # 0) => x.ptr[c] \in ToSet(x.open)
 (* persisted values never decrease within a run *)
 MonotoneAt(i) == (i > 1 /\ Trace[i].run = Trace[i - 1].run) =>
-                   \A c \in DOMAIN Trace[i].st : Trace[i].cell1[c] >= Trace[i - 1].cell1[c] /\ Trace[i].cell2[c] >= Trace[i - 1].cell2[c]
+                   \A c \in DOMAIN Trace[i].st : Trace[i].cell1[c] >= Trace[i - 1].cell1[c] /\ Trace[i].cell2[c] >= Trace[i - 1].cell2[c] /\ Trace[i].cell3[c] >= Trace[i - 1].cell3[c]
 
 UpperBound == UpperBoundAt(Trace[l])
 Quiescent == QuiescentAt(Trace[l])
